@@ -346,7 +346,7 @@ Proof.
   intros [h d] s o HR Hwf. unfold step.
   destruct (exec (h, d) o) as [[r h'] es] eqn:Hex. cbn [fst snd].
   pose proof HR as (Hdat & Hds & Hrm & Hme & (Hhm & Hhn & Hhb & Hhs) & Hrows & Hrb & Htl). cbn [fst snd] in *.
-  destruct o as [cs|idx|wr|m|m| |]; cbn [exec] in Hex.
+  destruct o as [cs|idx|wr|m|m| | |]; cbn [exec] in Hex.
   - eapply iterappend_refines; eassumption.
   - eapply truncate_refines; eassumption.
   - eapply setitem_refines; eassumption.
@@ -365,6 +365,12 @@ Proof.
     destruct (s_meta s) eqn:Hmt; [|inversion Hex; subst; cbn; split; [reflexivity|exact HR]].
     rewrite Hhm in Hex.
     destruct (s_mode s) eqn:Hm; [inversion Hex; subst; cbn; split; [reflexivity|exact HR]|].
+    rewrite Hds in Hex. inversion Hex; subst r h' es. cbn [fst snd is_ok]. split; [reflexivity|].
+    unfold Rel. cbn [fst snd apply_effs fold_left apply_eff a_data a_descr a_readme a_meta].
+    repeat split; try assumption. cbn [s_mode with_meta]. rewrite Hhm. symmetry. exact Hm.
+  - unfold meta_pop in Hex. rewrite Hhm, Hme in Hex. cbn [spec_step].
+    destruct (s_mode s) eqn:Hm; [inversion Hex; subst; cbn; split; [reflexivity|exact HR]|].
+    destruct (s_meta s) eqn:Hmt; [|inversion Hex; subst; cbn; split; [reflexivity|exact HR]].
     rewrite Hds in Hex. inversion Hex; subst r h' es. cbn [fst snd is_ok]. split; [reflexivity|].
     unfold Rel. cbn [fst snd apply_effs fold_left apply_eff a_data a_descr a_readme a_meta].
     repeat split; try assumption. cbn [s_mode with_meta]. rewrite Hhm. symmetry. exact Hm.
